@@ -16,8 +16,10 @@ Skip(l, s) == IF l = <<>> THEN <<>>
               ELSE IF s >= Head(l) THEN Skip(Tail(l), s - Head(l))
               ELSE IF s > 0 THEN <<Head(l) - s>> \o Tail(l)
               ELSE l
-Init == /\ n \in 1..MaxN /\ nb \in 1..MaxB /\ pre \in 0..MaxN /\ pre <= n
-        /\ todo = Skip(Full(n, nb), pre) /\ done = pre /\ requested = <<>>
+\* a resumed run that is handed MORE eigenpairs than it is asked for keeps the n largest of them (Kept) and requests nothing
+Kept(nn, p) == IF p > nn THEN nn ELSE p
+Init == /\ n \in 1..MaxN /\ nb \in 1..MaxB /\ pre \in 0..(MaxN + 2) /\ pre <= n + 2
+        /\ todo = Skip(Full(n, nb), Kept(n, pre)) /\ done = Kept(n, pre) /\ requested = <<>>
 Batch == /\ todo # <<>>
          /\ requested' = Append(requested, Head(todo)) /\ done' = done + Head(todo) /\ todo' = Tail(todo)
          /\ UNCHANGED <<n, nb, pre>>
@@ -27,7 +29,7 @@ FairSpec == Spec /\ WF_vars(Batch)
 RECURSIVE Sum(_)
 Sum(l) == IF l = <<>> THEN 0 ELSE Head(l) + Sum(Tail(l))
 \* exactly the missing eigenvalues are requested, in non-empty batches, never more than wanted
-Exact == todo = <<>> => (done = n /\ Sum(requested) = n - pre)
+Exact == todo = <<>> => (done = n /\ Sum(requested) = n - Kept(n, pre))
 Positive == \A i \in 1..Len(requested) : requested[i] > 0
 NeverTooMany == done <= n
 \* a run resumed after any number of complete batches of an uninterrupted run asks for exactly the remaining batches of that run
